@@ -76,6 +76,10 @@ def make_loss(spec):
     w = o.pop("weights", None)
     if w is not None:
         o["coordinate_weights"] = np.array(w, dtype=float)
+    fl = o.pop("filters", None)
+    if fl is not None:
+        from sim.peers import FILTERS
+        o["coordinate_filters"] = [None if f is None else FILTERS[f] for f in fl]
     if k == "minkowski":
         return MinkowskiLoss(**o)
     if k == "msm":
@@ -171,6 +175,8 @@ def gen_sampler_spec(rng: random.Random, kind: str, bs: int, cheap=True):
             o = {"global_minimum_across_samplers": o["global_minimum_across_samplers"]}
     elif kind == "cors":
         o = {"max_samples": rng.choice([200, 1000]), "rho0": rng.choice([0.5, 0.2]), "p": rng.choice([1.0, 2.0])}
+    if kind in ("bestbatch", "gp", "rf", "xgb") and rng.random() < 0.15:
+        o["max_deduplication_passes"] = rng.choice([0, 0, 1, 2, 6])     # (swarm and CORS fix their budget at 0); 0 is the boundary
     return {"cls": kind, "batch_size": bs, "opts": o}
 
 
@@ -231,6 +237,9 @@ def gen_loss(rng: random.Random, D, kinds=None):  # noqa: N803
         o = {"h": rng.choice(["silverman", "scott", 0.5])}
     if k != "likelihood" and rng.random() < 0.3:
         o["weights"] = [_r(rng.random() + 0.1, 3) for _ in range(D)]
+    if k in ("msm", "fourier", "gsl", "likelihood") and rng.random() < 0.2:
+        # a documented option: each simulated coordinate is transformed before the loss is computed (the recorded series is not)
+        o["filters"] = [rng.choice([None, "demean", "tanh", "smooth"]) for _ in range(D)]
     return {"cls": k, "opts": o}
 
 
@@ -314,7 +323,7 @@ class _Sink(io.TextIOBase):
 
 
 class BatchRec:
-    __slots__ = ("index", "pos", "cls", "bs", "returned", "calls", "losses", "hist_len", "sampler_obj_id", "ok")
+    __slots__ = ("index", "pos", "cls", "bs", "returned", "calls", "losses", "hist_len", "sampler_obj_id", "ok", "tag")
 
     def __init__(self):
         self.calls = []      # (task index, theta, N, seed, result)
@@ -438,6 +447,7 @@ class CalSim:
                 b.bs = self_s.batch_size
                 sch = sim.cal.scheduler.samplers
                 b.pos = next((i for i, s in enumerate(sch) if s is self_s), None)
+                b.tag = getattr(self_s, "_verif_tag", None)
                 b.hist_len = len(existing_points)
                 sim.cur = b
                 sim.batches.append(b)
@@ -609,9 +619,12 @@ class CalSim:
         np.random.seed(self.env["ambient"] % (2 ** 32))  # noqa: NPY002
         random.seed(self.env["ambient"])
         models.reset_script(self.cfg.get("script"), self.cfg.get("script_per", 1))
+        baton = self.baton
+        models.YIELD["fn"] = lambda: baton.yield_point("model")
         peers.reset_records()
 
     def teardown(self):
+        models.YIELD["fn"] = None
         try:
             if self.baton is not None:
                 self.leaked = self.baton.live_sim_threads()
@@ -639,7 +652,18 @@ class CalSim:
         seeds = random.Random(derive_seed("ctor", cs))
         def cseed():
             return None if cs is None else gen_seed(seeds)
-        samplers = [make_sampler(s, cseed()) for s in cfg["lineup"]]
+        samplers = []
+        for s in cfg["lineup"]:
+            if s.get("alias_of") is not None:
+                samplers.append(samplers[s["alias_of"]])       # the same object listed at two positions of the line-up
+            else:
+                samplers.append(make_sampler(s, cseed()))
+        if any(s.get("alias_of") is not None for s in cfg["lineup"]):
+            # which object is which must survive pickling: a tag on the instances (only in line-ups that repeat an object)
+            for k, smp in enumerate(samplers):
+                if not hasattr(smp, "_verif_tag"):
+                    smp._verif_tag = k  # noqa: SLF001
+            self.supplied_tags = [smp._verif_tag for smp in samplers]  # noqa: SLF001
         m = cfg["model"]
         self.model = models.HarnessModel(m["kind"], m["D"], m.get("extreme", 0.0), m.get("mutates", False), m.get("scale", 1.0))
         real = models.real_data_for(m["kind"], m["D"], cfg["N"], cfg["real_seed"])
@@ -800,6 +824,21 @@ class CalSim:
             return {"op": op, "exc": None, "ret": None, "snap": None}
         if kind == "restore":
             r = {"op": op, "exc": None, "ret": None, "snap": None}
+            target = self.folder if len(op) < 2 else self.named_folder(op[1])
+            if target is None or not os.path.exists(os.path.join(target, "calibration_params.json")):
+                # nothing was ever saved there (e.g. the only calibrate() so far raised): there is nothing to restore from
+                self.stats["restore-skipped:no-checkpoint"] += 1
+                if self.cal is None:
+                    # the process died before anything was saved: the user starts again from the configuration
+                    self.cal = self.build(self.cfg, folder=self.folder)
+                    self.batches = []
+                    self.policy_log = []
+                    self.timeline = []
+                    self.stats["restart-from-configuration"] += 1
+                r["snap"] = self.snapshot()
+                r["skipped"] = True
+                self.log.add("restore", "skipped")
+                return r
             self.abandon()
             try:
                 self.cal = Calibrator.restore_from_checkpoint(self.folder if len(op) < 2 else self.named_folder(op[1]), model=self.model)
@@ -941,9 +980,15 @@ def _shrink_scn(scn: dict):
         for i in range(len(cfg["lineup"]) - 1, -1, -1):
             c = copy.deepcopy(scn)
             del c["config"]["lineup"][i]
+            for sp in c["config"]["lineup"]:
+                if sp.get("alias_of") is not None:
+                    if sp["alias_of"] == i:
+                        del sp["alias_of"]
+                    elif sp["alias_of"] > i:
+                        sp["alias_of"] -= 1
             yield c
     for i, s in enumerate(cfg["lineup"]):
-        if s["batch_size"] > 1:
+        if s["batch_size"] > 1 and s.get("alias_of") is None and not any(x.get("alias_of") == i for x in cfg["lineup"]):
             c = copy.deepcopy(scn)
             c["config"]["lineup"][i]["batch_size"] -= 1
             yield c
@@ -965,7 +1010,11 @@ def _shrink_scn(scn: dict):
         c = copy.deepcopy(scn)
         c["config"]["model"] = {"kind": "gauss", "D": cfg["model"]["D"], "extreme": 0.0}
         yield c
-    if cfg["model"]["D"] > 1 and not cfg["loss"]["opts"].get("weights"):
+    if cfg["loss"]["opts"].get("filters"):
+        c = copy.deepcopy(scn)
+        del c["config"]["loss"]["opts"]["filters"]
+        yield c
+    if cfg["model"]["D"] > 1 and not cfg["loss"]["opts"].get("weights") and not cfg["loss"]["opts"].get("filters"):
         c = copy.deepcopy(scn)
         c["config"]["model"]["D"] = 1
         yield c
